@@ -16,7 +16,7 @@ Local Open Scope Z_scope.
 
 (** Headline theorem.  Under
       H1: on the stream's elements, isEqual is symmetric and implies equality of every rendered field,
-      H2: the sort key (7 scalar keys + first diagnostic) is injective on the isEqual-classes of the stream,
+      H2: the sort key (7 scalar keys + all diagnostics, sorted) is injective on the isEqual-classes of the stream,
     every permutation of the stream gives the same reported problems in the same order with the same duplicate
     folding, hence the same JSON and console output — for streams of any length (the model of Go's stable sort,
     insertion-sorted blocks of 20 merged by symMerge, is proved to return the unique sorted permutation:
@@ -125,12 +125,20 @@ Proof.
 Qed.
 Print Assumptions C11_runs_agree_exit.
 
-(** H2 is a consequence of two invariants of the job enumeration: (J-loc) problems reported for the same file and
-    line range come from entries that agree on symlink target, owner and rule identity; (J-diag) among problems
-    that tie on the whole sort key the diagnostics agree as sets of (columns, message, position).  Both are
-    statements about what checks answer (opaque here); H2 itself stays monitored on every recorded real stream. *)
+(** H2 is a consequence of ONE invariant of the job enumeration, (J-loc): problems reported for the same file and
+    line range come from entries that agree on symlink target, owner and rule identity (a statement about what
+    checks answer, opaque here, measured on every recorded real stream).  Before fix 346020d a second invariant was
+    needed — among problems that tie on the key, the first diagnostic determines the rest — and promql/aggregate
+    with several labels to keep/strip violated it on real input (one job per label, two reports per rule sharing
+    their first diagnostic: corpus/C11/aggregate-keep-two, replayed every run).  Now the comparator reads all
+    diagnostics, so key-equal reports have the same diagnostics by construction ([C11_key_covers_diagnostics]). *)
+Theorem C11_key_covers_diagnostics : forall a b : report,
+  sort_key (norm a) = sort_key (norm b) -> is_same_diags (r_diags b) (r_diags a) = true.
+Proof. exact key_eq_same_diags. Qed.
+Print Assumptions C11_key_covers_diagnostics.
+
 Theorem C11_H2_from_job_invariants : forall jobs : list job,
-  J_loc jobs -> J_diag jobs -> H2 (sequential job report run_job jobs).
+  J_loc jobs -> H2 (sequential job report run_job jobs).
 Proof. exact H2_from_job_invariants. Qed.
 Print Assumptions C11_H2_from_job_invariants.
 
@@ -221,6 +229,17 @@ Example C11_position_regression :
   map entry_diag_order (process [b; a; b; a]) = [[0%N]; [1%N]].
 Proof. vm_compute. repeat split; reflexivity. Qed.
 Print Assumptions C11_position_regression.
+
+(** Regression for fix 346020d: two reports of one rule that share their first diagnostic and differ in the second
+    (promql/aggregate, keep = ["job", "instance"]) satisfy H1 and H2 and come out in one order. *)
+Definition dagg (m : string) (col : Z) (k : N) := {| dg_msg := m; dg_first := col; dg_last := col + 3; dg_extra := k |}.
+Example C11_later_diagnostics_regression :
+  let a := ex_report "" "" [dagg "Query is using aggregation" 5 0; dagg "`job` label is required" 1 1] in
+  let b := ex_report "" "" [dagg "Query is using aggregation" 5 0; dagg "`instance` label is required" 1 1] in
+  is_equal a b = false /\ h1b [a; b] = true /\ h2b [a; b] = true /\ process [a; b] = process [b; a] /\
+  List.length (process [b; a; a; b]) = 2%nat.
+Proof. vm_compute. repeat split; reflexivity. Qed.
+Print Assumptions C11_later_diagnostics_regression.
 
 (** Non-vacuity: the design-session tie (two label blocks differing only in comment => reports differing only
     in Details, each arriving once per rule, here twice) satisfies H1 and H2; both texts are kept, in one order. *)
